@@ -438,7 +438,18 @@ def exec_a(sc, ctx):
             exp = oracle_a(sp, m, cwd, home)
             kind = _kind_of(sp, cwd, home)
         if exp is None:
+            # which answer is right is arguable - but the answer still has to be one of the two documented
+            # outcomes: an object, or the documented error
             sim.probe("a-skipped-ambiguous")
+            kw0 = {"cwd": pr["cwd"]} if "cwd" in pr else {}
+            o = run_op(lambda: Path(sp, m, **kw0))
+            if not (o.kind == "ret" or (o.kind == "exc" and isinstance(o.exc, PathError))):
+                got = "exc:" + (type(o.exc).__name__ if o.exc is not None else o.kind)
+                ctx.violation(
+                    "mode-predicate",
+                    {"part": "a", "flags": m, "kind": kind, "got": got, "expected": "object-or-PathError"},
+                    "Path(%r, mode=%r) with cwd=%s on a %s: %s escaped (%s); whichever answer is right here, it is an object or the documented error" % (sp, m, sim.canon(cwd), kind, got, o.text[:200]),
+                )
             continue
         kinds.add(kind)
         if pr.get("via") == "parser" and "cwd" not in pr:
